@@ -118,6 +118,9 @@ def members(shape, tier, seed):
         {"fam": "zerofibre", "shape": sh, "vseed": seed},
         {"fam": "binary", "shape": sh, "vseed": seed},
         {"fam": "zero", "shape": sh, "vseed": seed},          # the empty operand: no count observed at all
+        # the first slice of mode 0 holds a single count, at the very first cell: the first STORED entry of the sparse
+        # holder is then the only entry of its row (index set [0])
+        {"fam": "lonefirst", "shape": sh, "vseed": seed},
     ]
     if tier == "thorough":
         out += [
@@ -172,6 +175,10 @@ def data_array(d):
             a[(0,) * len(shape)] = 1.0
     elif fam == "zero":
         a = np.zeros(shape)
+    elif fam == "lonefirst":
+        a = rm.arr(shape, [1.0 + cnt(l) if l % 3 else cnt(l) for l in range(n)])
+        a[0] = 0.0
+        a[(0,) * len(shape)] = 2.0
     else:
         raise ValueError(fam)
     assert a.min() >= 0 and (a.any() or fam == "zero") and np.array_equal(a, np.round(a))
